@@ -32,7 +32,7 @@ for m in MUTANTS:
             s = open(path).read()
             n = s.count(old)
             if n != m.get('count', 1):
-                print('MUTANT %s: pattern occurs %d times in %s' % (m['id'], n, file)); raise SystemExit(2)
+                print('MUTANT %s: STALE - pattern occurs %d times in %s' % (m['id'], n, file)); raise LookupError(m['id'])
             open(path, 'w').write(s.replace(old, new))
         tests = ''
         if a.tests:
@@ -49,6 +49,8 @@ for m in MUTANTS:
             rows.append((m['id'], prop, verdict, tests, '%.0fs' % (time.time() - t0), ';'.join(sigs)[:150]))
             print('%-28s %-4s %-14s %-10s %5s  %s' % rows[-1]); sys.stdout.flush()
             if r.returncode == 2: print(r.stdout[-1500:])
+    except LookupError:
+        rows.append((m['id'], '-', 'STALE', '', '', ''))
     finally:
         shutil.rmtree(root, ignore_errors=True)
 missed = [r for r in rows if r[2] != 'caught']
